@@ -22,6 +22,9 @@ mod mon_master;
 mod gen_master;
 mod eng_rawbytes;
 mod gen_outstation;
+mod eng_pair;
+mod gen_pair;
+mod mon_pair;
 
 use std::io::Write;
 
@@ -48,6 +51,10 @@ fn main() {
                 "outstation" => gen_outstation::gen(thorough, seed, &mut out, gen_outstation::GenCfg { with_db: false }),
                 "master" => gen_master::gen(thorough, seed, &mut out),
                 "rawbytes" => eng_rawbytes::gen(thorough, seed, &mut out),
+                "pair" => gen_pair::gen(thorough, seed, &mut out, gen_pair::Profile::Both),
+                "pairsync" => gen_pair::gen(thorough, seed, &mut out, gen_pair::Profile::Sync),
+                "pairdata" => gen_pair::gen(thorough, seed, &mut out, gen_pair::Profile::Data),
+                "pairmerge" => gen_pair::gen(thorough, seed, &mut out, gen_pair::Profile::Merge),
                 "outstationdb" => gen_outstation::gen(thorough, seed, &mut out, gen_outstation::GenCfg { with_db: true }),
                 _ => {
                     eprintln!("unknown engine {engine}");
@@ -70,6 +77,8 @@ fn main() {
                 "convert" => eng_convert::run(&ops, &mut out, &mut mon),
                 "outstation" | "outstationdb" => eng_outstation::run(&ops, &mut out, &mut mon),
                 "master" => eng_master::run(&ops, &mut out, &mut mon),
+                "pair" | "pairsync" | "pairdata" => eng_pair::run(&ops, &mut out, &mut mon, false),
+                "pairmerge" => eng_pair::run(&ops, &mut out, &mut mon, true),
                 "rawbytes" => eng_rawbytes::run(&ops, &mut out, &mut mon, Some(&format!("{}.trace", args[4]))),
                 _ => {
                     eprintln!("unknown engine {engine}");
